@@ -592,6 +592,57 @@ func c01Wide(r *core.Run, p *route.Parser, paths []string) {
 	})
 }
 
+// c01Literals: every punctuation character the route grammar admits in literal text, next to binds: literal
+// text matches literally whatever it means in a regular expression. One route per tree; paths = every
+// concatenation of up to four tokens of {x, a, the character, y} as first segment, alone and before /z.
+func c01Literals(r *core.Run, p *route.Parser) {
+	puncts := "-._~@!$&'()*+;%="
+	var texts []string
+	charOf := map[string]string{}
+	for _, ch := range puncts {
+		c := string(ch)
+		for _, t := range []string{"/x{p}" + c, "/" + c + "{p}", "/x{p}" + c + "y{q}", "/{p}" + c + "/z", "/x" + c, "/x{r: /[ax]+/}" + c + "y"} {
+			texts = append(texts, t)
+			charOf[t] = c
+		}
+	}
+	cat, bad := mkCatalogue(p, texts)
+	r.Notes["literal_routes_unparseable(C06)"] = len(bad)
+	r.Bounds["literal_punctuation"] = fmt.Sprintf("%d routes: six shapes x the %d punctuation characters of literal text", len(cat), len(puncts))
+	r.Parallel(func(w, nw int, l *core.Local) {
+		env := &c01Env{m: ref.NewMatcher()}
+		for ci := w; ci < len(cat); ci += nw {
+			if r.Expired() {
+				return
+			}
+			tree, trie, reg, usable := c01Build([]catRoute{cat[ci]})
+			if !usable || len(reg) != 1 {
+				l.Extra["configs_skipped_registration_verdict_differs(C08)"]++
+				continue
+			}
+			l.States++
+			c := charOf[cat[ci].Text]
+			segs := stringsOver([]string{"x", "a", c, "y"}, 4)
+			for _, sg := range segs {
+				for _, tail := range []string{"", "/z"} {
+					pth := "/" + sg + tail
+					l.Evals++
+					l.Transitions++
+					l.Traces++
+					bad, key, class, _ := c01Eval(env, tree, trie, pth)
+					if strings.Contains(sg, c) {
+						l.NonTrivial++
+					}
+					l.Class(class)
+					if bad != "" {
+						l.Violate("tree/"+key+"/punctuation-in-literal", bad+fmt.Sprintf(" [route %q, path %q]", cat[ci].Text, pth), c01Case{Routes: []string{cat[ci].Text}, Path: pth})
+					}
+				}
+			}
+		}
+	})
+}
+
 func c01Run(r *core.Run) {
 	p, err := route.NewParser()
 	if err != nil {
@@ -604,7 +655,7 @@ func c01Run(r *core.Run) {
 		"Go regexp is trusted (used independently per expression by the reference)",
 		"registration verdict differences are C08's finding; such configurations are skipped here and counted",
 	}
-	r.Rule = "engine E: every ordered tuple of distinct catalogue routes registered on a fresh route.Tree (and Flame for the method dimension) x every path; every tuple also with the whole path set served between its registrations (same final answers required); one table of 33 routes in 66 registration orders; oracle = declarative admission (found iff some form admits) AND the documented priority procedure over a reference trie (winner equality); non-trivial = (set,path) admitted by >=2 registered forms or won after back-tracking out of a higher-ranked branch"
+	r.Rule = "engine E: every ordered tuple of distinct catalogue routes registered on a fresh route.Tree (and Flame for the method dimension) x every path; every tuple also with the whole path set served between its registrations (same final answers required); one table of 33 routes in 66 registration orders; six route shapes with each of the 16 punctuation characters of literal text next to binds x every concatenation of <=4 tokens as path segment; oracle = declarative admission (found iff some form admits) AND the documented priority procedure over a reference trie (winner equality); non-trivial = (set,path) admitted by >=2 registered forms or won after back-tracking out of a higher-ranked branch"
 	var maxSegs, pathSegs, pairPathSegs int
 	if r.Thorough() {
 		r.SetBudget(20 * time.Minute)
@@ -638,6 +689,7 @@ func c01Run(r *core.Run) {
 	r.Bounds["paths_tuples"] = len(pathsPair)
 	r.Bounds["path_alphabet"] = alpha
 
+	c01Literals(r, p)
 	c01Configs(r, full, 1, pathsLong, "single")
 	if r.Thorough() {
 		c01Configs(r, small, 2, pathsLong, "pairs(2seg catalogue, long paths)")
